@@ -41,7 +41,7 @@ fn ser_with(
 /// finish).  The arm is replaced by an assertion that it is NOT entered - an obligation the solver
 /// discharges, not an assumption.  (Inherent method so that `impl FnOnce(Self)` matches for Kani.)
 impl<'r, 'c, 's, W: Write> DatumSerializer<'r, 'c, 's, W> {
-	fn verif_unreachable_union_arm<O>(
+	pub(crate) fn verif_unreachable_union_arm<O>(
 		self,
 		_union: &'s Union<'s>,
 		_variant_lookup: UnionVariantLookupKey,
